@@ -34,7 +34,7 @@ use either::Either;
 use gix_protocol::handshake::Ref;
 use nonempty::NonEmpty;
 use radicle::crypto::PublicKey;
-use radicle::git::{refname, Component, Namespaced, Qualified};
+use radicle::git::{Component, Namespaced, Qualified};
 use radicle::storage::git::Repository;
 use radicle::storage::refs::{RefsAt, Special};
 use radicle::storage::ReadRepository;
@@ -481,10 +481,11 @@ impl ProtocolStage for DataRefs {
             }
 
             // Prune refs not in signed
-            let prefix_rad = refname!("refs/rad");
             for (name, target) in repo.references_of(remote)? {
-                // 'rad/' refs are never subject to pruning
-                if name.starts_with(prefix_rad.as_str()) {
+                // 'rad/sigrefs' is never signed, and never subject to
+                // pruning. Any other reference, including 'rad/id' and
+                // 'rad/root', must be signed to be kept.
+                if name == radicle::storage::refs::SIGREFS_BRANCH.to_ref_string() {
                     continue;
                 }
 
